@@ -205,4 +205,15 @@ def affine_kinds(repo: Repo) -> RuleRun:
 
 affine_kinds.rule_id = "C17.AFFINE-KINDS"
 
-RULES = [purity, position_writers, link_algebra, affine_kinds]
+def mirror_matrix(repo: Repo) -> RuleRun:
+    """SymmetryLink's follower is the leader's mirror image only if functions.mirror_matrix is a reflection: same rule as
+    C09.MIRROR-MATRIX."""
+    from ..report import rebrand
+    from . import c09
+
+    return rebrand(c09.mirror_matrix(repo), PROP, "C17.MIRROR-MATRIX")
+
+
+mirror_matrix.rule_id = "C17.MIRROR-MATRIX"
+
+RULES = [purity, position_writers, link_algebra, affine_kinds, mirror_matrix]
